@@ -164,7 +164,7 @@ parser! {
             }
 
         pub rule reg8() -> Reg8
-            = r_name:$(['r' | 'R'] ['0'..='9']*<1,2>) { Reg8::from_str(r_name.to_lowercase().as_str()).unwrap() }
+            = r_name:$(['r' | 'R'] ['0'..='9']*<1,2>) {? Reg8::from_str(r_name.to_lowercase().as_str()).or(Err("register r0-r31")) }
 
         pub rule reg16() -> Reg16
             = r_name:$(['x' | 'y' | 'z' | 'X' | 'Y' | 'Z']) { Reg16::from_str(r_name.to_lowercase().as_str()).unwrap() }
